@@ -47,6 +47,13 @@ def dedup (l : List Phrase) : List Phrase := l.foldl dedupStep []
 /-- `usize::MAX` on the 64-bit targets the harness runs on -/
 def usizeMax : Nat := 2 ^ 64 - 1
 
+/-- `Dictionary::lookup_first_phrase`, a provided method of the trait (`dictionary/mod.rs`), given the
+    implementation's `lookup_first_n_phrases(k, ·, st)`: `lookup_first_n_phrases(k, 1, st).into_iter().next()` -/
+def firstPhraseOf (lookupN : Nat → List Phrase) : Option Phrase := (lookupN 1).head?
+
+/-- `Dictionary::lookup_all_phrases`, provided method: `lookup_first_n_phrases(k, usize::MAX, st)` -/
+def allPhrasesOf (lookupN : Nat → List Phrase) : List Phrase := lookupN usizeMax
+
 namespace Layered
 
 /-- candidates in the order the loop sees them: system layers in order, then the user layer; each
